@@ -1,11 +1,88 @@
 //! C12: formatting traits. `fmt cfg <trait> <flags> <width|-> a` -> hex bytes of the produced text;
-//! `fmt_prim <prim> <trait> <flags> <width|-> a` the same for a primitive integer (oracle at 8..128 bits).
+//! `fmt_prim <prim> <trait> <flags> <width|-> a` the same for a primitive integer (oracle: the primitive of
+//! equal width at 8..128 bits, `u128`/`i128` holding the same value for the other widths below 128 bits).
+//! Fill classes (second flag character, only read when an alignment is given): `d` default `' '`, `s` `'*'`
+//! (both through `fmtgen::fmt_dyn`), and here `u` `'€'` (3 bytes), `o` `'0'`, `e` `'é'` (2 bytes),
+//! `g` `'𝄞'` (4 bytes): `pad_integral` counts the width in chars and writes the fill as a `char`.
 use bnum_verif_harness::fmtgen::{fmt_dyn, AllFmt};
 use bnum_verif_harness::*;
 
+// one literal format string per (fill, alignment, `+`, `#`, `0`, width given, trait): the pieces are
+// accumulated as literals and joined by `concat!` in the order of the format-spec grammar
+// `[[fill]align][sign]['#']['0'][width][type]`
+macro_rules! lit {
+    ($x:expr, $w:expr, $ty:literal, [$($p:literal,)*]) => {
+        match $w {
+            None => format!(concat!("{:", $($p,)* $ty, "}"), $x),
+            Some(w) => format!(concat!("{:", $($p,)* "w$", $ty, "}"), $x, w = w),
+        }
+    };
+}
+macro_rules! zero {
+    ($c:ident, $x:expr, $w:expr, $ty:literal, [$($p:literal,)*]) => {
+        if $c[4] == b'z' { lit!($x, $w, $ty, [$($p,)* "0",]) } else { lit!($x, $w, $ty, [$($p,)*]) }
+    };
+}
+macro_rules! alt {
+    ($c:ident, $x:expr, $w:expr, $ty:literal, [$($p:literal,)*]) => {
+        if $c[3] == b'a' { zero!($c, $x, $w, $ty, [$($p,)* "#",]) } else { zero!($c, $x, $w, $ty, [$($p,)*]) }
+    };
+}
+macro_rules! sign {
+    ($c:ident, $x:expr, $w:expr, $ty:literal, [$($p:literal,)*]) => {
+        if $c[2] == b'p' { alt!($c, $x, $w, $ty, [$($p,)* "+",]) } else { alt!($c, $x, $w, $ty, [$($p,)*]) }
+    };
+}
+macro_rules! align {
+    ($c:ident, $x:expr, $w:expr, $ty:literal, $fill:literal) => {
+        match $c[0] {
+            b'l' => sign!($c, $x, $w, $ty, [$fill, "<",]),
+            b'c' => sign!($c, $x, $w, $ty, [$fill, "^",]),
+            b'r' => sign!($c, $x, $w, $ty, [$fill, ">",]),
+            _ => return None,
+        }
+    };
+}
+macro_rules! fill {
+    ($c:ident, $x:expr, $w:expr, $ty:literal) => {
+        match $c[1] {
+            b'u' => align!($c, $x, $w, $ty, "€"),
+            b'o' => align!($c, $x, $w, $ty, "0"),
+            b'e' => align!($c, $x, $w, $ty, "é"),
+            b'g' => align!($c, $x, $w, $ty, "𝄞"),
+            _ => return None,
+        }
+    };
+}
+
+/// the fill classes `fmtgen` does not know (`flags` as there; an alignment is required)
+fn fmt_fill(tr: &str, flags: &str, width: Option<usize>, x: &dyn AllFmt) -> Option<String> {
+    let c = flags.as_bytes();
+    if c.len() != 5 || !matches!(c[2], b'p' | b'-') || !matches!(c[3], b'a' | b'-') || !matches!(c[4], b'z' | b'-') {
+        return None;
+    }
+    Some(match tr {
+        "display" => fill!(c, x, width, ""),
+        "debug" => fill!(c, x, width, "?"),
+        "binary" => fill!(c, x, width, "b"),
+        "octal" => fill!(c, x, width, "o"),
+        "lower_hex" => fill!(c, x, width, "x"),
+        "upper_hex" => fill!(c, x, width, "X"),
+        "lower_exp" => fill!(c, x, width, "e"),
+        "upper_exp" => fill!(c, x, width, "E"),
+        _ => return None,
+    })
+}
+
 fn go(x: &dyn AllFmt, a: &[&str]) -> Option<String> {
     let width = if a[2] == "-" { None } else { Some(a[2].parse::<usize>().ok()?) };
-    fmt_dyn(a[0], a[1], width, x).map(|s| show_bytes(s.as_bytes()))
+    let f = a[1].as_bytes();
+    let s = if f.len() == 5 && f[0] != b'n' && matches!(f[1], b'u' | b'o' | b'e' | b'g') {
+        fmt_fill(a[0], a[1], width, x)
+    } else {
+        fmt_dyn(a[0], a[1], width, x)
+    };
+    s.map(|s| show_bytes(s.as_bytes()))
 }
 
 macro_rules! imp {
